@@ -1,0 +1,12 @@
+//go:build verif
+
+package openapi3filter
+
+import "github.com/getkin/kin-openapi/openapi3"
+
+// VerifDecodeStyledParameter exposes decodeStyledParameter to the verification
+// harness (build tag "verif" only): the decoded value of a styled parameter,
+// whether it was present, and the decoding error.
+func VerifDecodeStyledParameter(param *openapi3.Parameter, input *RequestValidationInput) (any, bool, error) {
+	return decodeStyledParameter(param, input)
+}
